@@ -42,11 +42,11 @@ SPECS["C31"] = dict(
     entries=dict(
         quick=[dict(name="c31_uri_roundtrip", bounds="all byte strings of 0..3 bytes; ignore set in {unreserved, empty, all-but-%}", reach=["done"]),
                dict(name="c31_uri_decode_arbitrary", bounds="all inputs of 0..4 bytes", reach=["accepted", "rejected"]),
-               dict(name="c31_rfc1738_roundtrip", bounds="all NUL-free strings of 0..3 bytes, 4 flag sets that escape '%', static buffer reuse after a 0/1-byte call", reach=["done"]),
+               dict(name="c31_rfc1738_roundtrip", bounds="all NUL-free strings of 0..2 bytes, 4 flag sets that escape '%', static buffer reuse after a call with one of {\"\", \"a\", \"%\"}", reach=["done"]),
                dict(name="c31_rfc1738_unescape_arbitrary", bounds="all NUL-free strings of 0..4 bytes in an exact-size heap buffer", reach=["done"])],
-        thorough=[dict(name="c31_uri_roundtrip", bounds="0..5 bytes", reach=["done"]),
-                  dict(name="c31_uri_decode_arbitrary", bounds="0..6 bytes", reach=["accepted", "rejected"]),
-                  dict(name="c31_rfc1738_roundtrip", bounds="0..5 bytes", reach=["done"]),
+        thorough=[dict(name="c31_uri_roundtrip", bounds="0..4 bytes", reach=["done"]),
+                  dict(name="c31_uri_decode_arbitrary", bounds="0..5 bytes", reach=["accepted", "rejected"]),
+                  dict(name="c31_rfc1738_roundtrip", bounds="0..3 bytes", reach=["done"]),
                   dict(name="c31_rfc1738_unescape_arbitrary", bounds="0..5 bytes", reach=["done"])]),
     timeout=dict(quick=300, thorough=1800),
     stubs=["vsnprintf model for %%%02X", "memAllocBuf rounding as mem/old_api.cc"],
@@ -55,8 +55,8 @@ SPECS["C31"] = dict(
 SPECS["C32"] = dict(
     harness="C32_html.cc", units=SBUF + ["src/html/Quoting.cc"],
     entries=dict(
-        quick=[dict(name="c32_html_quote", bounds="two consecutive calls: NUL-free strings of 0..1 then 0..3 bytes (covers static buffer reuse/growth)", reach=["done"])],
-        thorough=[dict(name="c32_html_quote", bounds="two consecutive calls: 0..1 then 0..5 bytes", reach=["done"])]),
+        quick=[dict(name="c32_html_quote", bounds="two consecutive calls (static buffer reuse/growth): first one of {\"\", \"a\", \"<\", \"\\x0b\", \"\\x80\"}, then every NUL-free string of 0..1 bytes", reach=["done"])],
+        thorough=[dict(name="c32_html_quote", bounds="two consecutive calls: first one of the same 5 strings, then every NUL-free string of 0..2 bytes", reach=["done"])]),
     timeout=dict(quick=240, thorough=1500),
     stubs=["vsnprintf model for &#%d;"],
     outside="strings longer than the bound",
